@@ -6,8 +6,16 @@ Functions under contract (real source): perdictable._value_output - the two comp
 Obligations: a row's previously computed value is kept exactly when its expiry is a date in the past (strictly before today) and the
 row is not flagged for recomputation because a value is missing; otherwise the value is f applied to that row; f is applied at most once
 per row and only to rows that are (re)computed (one evaluation site, guarded by the condition).
-Bounded only (rac/C20.py): join(inputs, on, defaults) - inner join of inputs without defaults, outer join with defaults, sorted by key -
-which is a composition of dictable.join / xor / sort calls (their contracts are C02 / C07); scalar-only calls; run_if_none; _dict_output.
+  join(inputs, on, defaults) with _join_dictable_with_defaults and reducer inlined, at the level of key sets: every table input is an uninterpreted set K_i of key
+  values (keys unique per table), the dictable operations it composes are taken by their contracts (d1 * d2: keys on both sides - C02 join; d1 / d2: keys of d1 that
+  d2 lacks - C02 xor; d1 + d2: rows of both - C01 concat; d(**constants); d.sort(on) - C07).  One symbolic run per configuration (0..2 inputs without a default,
+  0..2 with, with / without a scalar input).  Obligations: a row for exactly the keys present in every input without a default (the union of the defaulted inputs'
+  keys when there is none); every input has its column; a defaulted input's column holds the input's own value exactly where the input has the key and the default
+  elsewhere; scalars are broadcast; the result is sorted by `on`; the concats only ever meet operands with the same columns and no common key.
+  perdictable._value_output up to its call of join: the expiry is an input and both it and the previously computed column are registered with default None
+  (outer-joined), whether the defaults come from the signature or are given.
+Assumed: _item (column selection / renaming per input) keeps the rows of a table input.
+Bounded only (rac/C20.py): row-level values and order inside join, _item, scalar-only calls, run_if_none, _dict_output.
 """
 import ast
 import z3
@@ -18,7 +26,7 @@ from pyvc.symex import Exec, State
 from pyvc.theories import TypePreds, Dates
 from pyvc.th_lists import Lists, Val, NONEV, VAL, INT, fresh_list, V
 from pyvc.th_tables import Tables, Key, KEY, fresh_table, wf, column, key_of
-from pyvc.sv import SV, I, B, T, DT, DAYUS, fresh_name, lex_le
+from pyvc.sv import SV, I, B, S, T, NONE, DT, DAYUS, fresh_name, lex_le
 
 PROP = 'C20'
 
@@ -70,8 +78,389 @@ class Perd:
         return NotImplemented
 
 
+# ====================================================================================================== join(inputs, on, defaults) at the level of key sets
+from z3 import DeclareSort, ArraySort, Array, EmptySet, SetUnion, SetIntersect, SetDifference
+KeyV = DeclareSort('KeyTuple')        # a value of the key columns `on`
+KS = ArraySort(KeyV, BoolSort())
+
+
+def ktable(keys, act, sorted_by=None, has=None):
+    """a table keyed by `on`, at set level: which keys have a row (keys unique per table), and for every value column the set of keys whose row holds the
+    input's own value (the other rows hold the default given for that input); `has`: whether the column is there at all (symbolic after a merge of paths)"""
+    return SV('ktable', None, keys=keys, act=dict(act), has=dict(has) if has is not None else {c: BoolVal(True) for c in act}, sorted_by=sorted_by)
+
+
+def sdict(items):
+    return SV('sdict', None, items=dict(items))
+
+
+class KeySets:
+    """static dicts (inputs / defaults / renames), and tables as key sets with the contracts of the dictable operations join composes:
+       d1 * d2  inner join on the key columns: the keys present on both sides, the value columns of both (C02: join.post.*)
+       d1 / d2  anti-join: the keys of d1 that d2 lacks, the columns of d1 (C02: xor.mode0.post.*)
+       d(**kw)  adds constant columns (dictable.__call__ with non-callable values: bounded only)
+       d1 + d2  concat: rows of both, union of the columns (C01: __add__.*); stated for operands with the same value columns
+       d.sort(on)  the same rows ordered by `on` (C07)"""
+
+    def __init__(self):
+        self.joins = []
+
+    def expr(self, ex, st, e):
+        if isinstance(e, ast.Dict):
+            items = {}
+            for k, v in zip(e.keys, e.values):
+                kk = ex.eval(st, k)
+                if kk.kind != 'str' or kk.t is not None:
+                    raise OutOfSubset('dict display with a non-literal key')
+                items[kk.lit] = ex.eval(st, v)
+            return sdict(items)
+        if isinstance(e, ast.List) and len(e.elts) == 1:
+            return SV('scalarcol', None, of=ex.eval(st, e.elts[0]))
+        return NotImplemented
+
+    def name(self, ex, st, ident):
+        if ident == 'mul' and ident not in st.env:
+            return SV('builtin', None, name='mul')
+        if ident in ('_data', '_expiry', '_output') and ident not in st.env:
+            return S({'_data': 'data', '_expiry': 'expiry', '_output': 'output'}[ident])
+        return NotImplemented
+
+    def _static_comp(self, ex, st, e, make):
+        if len(e.generators) != 1:
+            return NotImplemented
+        g = e.generators[0]
+        it = ex.eval(st, g.iter)
+        if it.kind == 'sitems':
+            seq = [T([S(k), v]) for k, v in it.f['of'].f['items'].items()]
+        elif it.kind == 'lazylist' and it.f.get('items') is not None:
+            seq = it.f['items']
+        else:
+            return NotImplemented
+        out = []
+        for x in seq:
+            sub = st.fork(); sub.env = dict(st.env); sub.pending = []
+            ex.assign(sub, g.target, x, None)
+            keep = True
+            for c in g.ifs:
+                t = z3.simplify(ex.truth(sub, ex.eval(sub, c)))
+                if z3.is_false(t):
+                    keep = False
+                elif not z3.is_true(t):
+                    raise OutOfSubset('comprehension filter over a static dict is not decided')
+            if keep:
+                out.append(make(sub))
+            st.pending.extend(sub.pending)
+            st.pc = sub.pc
+        return out
+
+    def dictcomp(self, ex, st, e):
+        def make(sub):
+            k = ex.eval(sub, e.key)
+            if k.kind != 'str' or k.t is not None:
+                raise OutOfSubset('dict comprehension with a non-literal key')
+            return k.lit, ex.eval(sub, e.value)
+        r = self._static_comp(ex, st, e, make)
+        return r if r is NotImplemented else sdict(r)
+
+    def listcomp(self, ex, st, e):
+        r = self._static_comp(ex, st, e, lambda sub: ex.eval(sub, e.elt))
+        return r if r is NotImplemented else SV('lazylist', None, n=IntVal(len(r)), items=r, at=None)
+
+    def call(self, ex, st, e, fname, args, kwargs):
+        a0 = args[0] if args else None
+        if fname in ('is_dict',) and len(args) == 1:
+            return B(a0.kind == 'sdict')
+        if fname == 'is_dictable' and len(args) == 1:
+            return B(a0.kind == 'ktable')
+        if fname == 'len' and len(args) == 1 and a0.kind == 'sdict':
+            return I(len(a0.f['items']))
+        if fname == 'len' and len(args) == 1 and a0.kind == 'ktable':
+            n = Int(fresh_name('nrows'))
+            ex.use('axiom:len(table) == 0 iff it has no key (keys are unique per table)')
+            ex.fact(And(n >= 0, (n == 0) == (a0.f['keys'] == EmptySet(KeyV))))
+            return I(n)
+        if fname == 'list' and len(args) == 1 and a0.kind == 'svalues':
+            return SV('lazylist', None, n=IntVal(len(a0.f['of'].f['items'])), items=list(a0.f['of'].f['items'].values()), at=None)
+        if fname == 'list' and len(args) == 1 and a0.kind == 'lazylist' and a0.f.get('items') is not None:
+            return a0
+        if fname == 'reduce' and len(args) == 3 and args[1].kind == 'lazylist' and args[1].f.get('items') is not None:
+            ex.use('axiom:reduce(f, xs, init) folds f over xs from the left')
+            acc = args[2]
+            for x in args[1].f['items']:
+                if a0.kind == 'builtin' and a0.f['name'] == 'mul':
+                    acc = ex.binop(st, None, 'Mult', acc, x)
+                elif a0.kind == 'func':
+                    acc = ex.call_func(st, a0, [acc, x], {})
+                else:
+                    raise OutOfSubset('reduce of %s' % a0.kind)
+            return acc
+        if fname == '_item' and len(args) == 2:
+            ex.use('assumed contract:_item(d, key, on, renames) keeps the rows of a table input and selects / renames its value column to `key`; '
+                   'anything else is returned as it is (column selection: bounded only)')
+            d, key = args
+            if d.kind == 'ktable':
+                if key.kind != 'str' or len(d.f['act']) != 1:
+                    raise OutOfSubset('_item on a table with %d value columns' % len(d.f['act']))
+                return ktable(d.f['keys'], {key.lit: list(d.f['act'].values())[0]}, has={key.lit: list(d.f['has'].values())[0]})
+            return d
+        if fname == 'as_list' and len(args) == 1 and a0.kind in ('onspec', 'str'):
+            return a0 if a0.kind == 'onspec' else SV('lazylist', None, n=IntVal(1), items=[a0], at=None)
+        if fname == 'ulist' and len(args) == 1:
+            return a0
+        if fname == 'argspec_defaults' and len(args) == 1:
+            return sdict({})
+        if fname == 'join' and len(args) == 1 and set(kwargs) == {'on', 'renames', 'defaults'}:
+            self.joins.append((args[0], kwargs))
+            return SV('joined')
+        return NotImplemented
+
+    def method(self, ex, st, e, recv, mname, args, kwargs):
+        if recv.kind == 'sdict':
+            if mname == 'items' and not args:
+                return SV('sitems', None, of=recv)
+            if mname == 'values' and not args:
+                return SV('svalues', None, of=recv)
+            if mname == 'get' and len(args) == 2 and args[0].kind == 'str':
+                return recv.f['items'].get(args[0].lit, args[1])
+            if mname == 'update' and len(args) == 1 and args[0].kind == 'sdict' and isinstance(e.func.value, ast.Name):
+                new = dict(recv.f['items']); new.update(args[0].f['items'])
+                st.env[e.func.value.id] = sdict(new)
+                return NONE
+        if recv.kind == 'onspec' and mname == 'get':
+            return recv
+        if recv.kind == 'ktable' and mname == 'sort' and len(args) == 1:
+            ex.use('callee contract:d.sort(on) has the rows of d ordered by the columns `on` (C07: dictable.sort)')
+            return ktable(recv.f['keys'], recv.f['act'], sorted_by=args[0], has=recv.f['has'])
+        return NotImplemented
+
+    def subscript(self, ex, st, e, recv, idx):
+        if recv.kind == 'sdict' and idx.kind == 'str':
+            if idx.lit not in recv.f['items']:
+                ex.raise_if(st, BoolVal(True), 'KeyError')
+                return NONE
+            return recv.f['items'][idx.lit]
+        if recv.kind == 'lazylist' and recv.f.get('items') is not None and idx.kind == 'int' and z3.is_int_value(z3.simplify(idx.t)):
+            k = z3.simplify(idx.t).as_long()
+            if 0 <= k < len(recv.f['items']):
+                return recv.f['items'][k]
+        if recv.kind == 'lazylist' and recv.f.get('items') is not None and idx.kind == 'slice' and idx.f.get('step') is None and idx.f.get('hi') is None \
+                and idx.f.get('lo') is not None and z3.is_int_value(z3.simplify(idx.f['lo'].t)):
+            items = recv.f['items'][z3.simplify(idx.f['lo'].t).as_long():]
+            return SV('lazylist', None, n=IntVal(len(items)), items=items, at=None)
+        return NotImplemented
+
+    def store_subscript(self, ex, st, tg, recv, idx, v):
+        if recv.kind == 'sdict' and idx.kind == 'str':
+            new = dict(recv.f['items']); new[idx.lit] = v
+            return sdict(new)
+        return NotImplemented
+
+    def compare(self, ex, st, e, op, a, b):
+        if op in ('In', 'NotIn') and b.kind == 'sdict' and a.kind == 'str':
+            return BoolVal((a.lit in b.f['items']) == (op == 'In'))
+        return NotImplemented
+
+    # ---- the table operations, by contract
+    def binop(self, ex, st, e, op, a, b):
+        if a.kind == 'ktable' and b.kind == 'ktable' and op == 'Mult':
+            ex.use('callee contract:d1 * d2 is the inner join on the key columns: a row for exactly the keys present on both sides, carrying the value columns of both '
+                   '(C02: join.post.*; keys unique per table)')
+            keys = SetIntersect(a.f['keys'], b.f['keys'])
+            act = {c: SetIntersect(s, keys) for c, s in list(a.f['act'].items()) + list(b.f['act'].items())}
+            return ktable(keys, act, has=dict(list(a.f['has'].items()) + list(b.f['has'].items())))
+        if a.kind == 'ktable' and b.kind == 'ktable' and op == 'Div':
+            ex.use('callee contract:d1 / d2 keeps exactly the rows of d1 whose key d2 lacks, with the columns of d1 (C02: xor.mode0.post.*)')
+            keys = SetDifference(a.f['keys'], b.f['keys'])
+            return ktable(keys, {c: SetIntersect(s, keys) for c, s in a.f['act'].items()}, has=a.f['has'])
+        if a.kind == 'ktable' and b.kind == 'ktable' and op == 'Add':
+            return self.concat(ex, st, a, b)
+        return NotImplemented
+
+    def concat(self, ex, st, a, b):
+        ex.use('callee contract:d1 + d2 has the rows of d1 followed by those of d2 and the union of their columns (C01: __add__.*)')
+        cols = sorted(set(a.f['act']) | set(b.f['act']))
+        no = BoolVal(False)
+        # a column one operand lacks is filled with None, not with a default: the composition is only stated for operands with the same value columns
+        ex.oblige(st, 'concat.operands_have_the_same_value_columns', And(*[a.f['has'].get(c, no) == b.f['has'].get(c, no) for c in cols]), kind='pre')
+        ex.oblige(st, 'concat.operands_share_no_key', SetIntersect(a.f['keys'], b.f['keys']) == EmptySet(KeyV), kind='pre')
+        e0 = EmptySet(KeyV)
+        return ktable(SetUnion(a.f['keys'], b.f['keys']), {c: SetUnion(a.f['act'].get(c, e0), b.f['act'].get(c, e0)) for c in cols},
+                      has={c: Or(a.f['has'].get(c, no), b.f['has'].get(c, no)) for c in cols})
+
+    def augassign(self, ex, st, s, op, cur, v):
+        if op == 'Add' and cur.kind == 'ktable' and v.kind == 'ktable':
+            return self.concat(ex, st, cur, v)
+        return NotImplemented
+
+    def call_value(self, ex, st, e, fn, args, kwargs):
+        if fn.kind == 'ktable' and not args and set(kwargs) <= {'**'}:
+            extra = kwargs.get('**', sdict({}))
+            if extra.kind != 'sdict':
+                raise OutOfSubset('table(**%s)' % extra.kind)
+            ex.use('callee contract:d(**{name: value}) adds the column `name` holding the constant value in every row (dictable.__call__: bounded only)')
+            act, has = dict(fn.f['act']), dict(fn.f['has'])
+            for c, v in extra.f['items'].items():
+                # a constant column: the input's own value where it is the broadcast scalar input itself, the default value otherwise
+                act[c] = fn.f['keys'] if v.kind == 'scalarcol' else EmptySet(KeyV)
+                has[c] = BoolVal(True)
+            return ktable(fn.f['keys'], act, has=has)
+        return NotImplemented
+
+    def concrete_items(self, ex, st, it):
+        if it.kind == 'lazylist' and it.f.get('items') is not None:
+            return it.f['items']
+        return NotImplemented
+
+    def truth(self, ex, st, v):
+        if v.kind == 'sdict':
+            return BoolVal(len(v.f['items']) > 0)
+        if v.kind == 'ktable':
+            ex.use('axiom:a table is falsy iff it has no row')
+            return Not(v.f['keys'] == EmptySet(KeyV))
+        return NotImplemented
+
+    def is_none(self, ex, st, v):
+        if v.kind in ('sdict', 'ktable', 'onspec', 'scalarcol', 'joined', 'lazylist'):
+            return BoolVal(False)
+        return NotImplemented
+
+    def merge(self, ex, st, cond, a, b):
+        if a.kind == 'tuple' and b.kind == 'tuple' and len(a.items) == len(b.items):
+            out = []
+            for x, y in zip(a.items, b.items):
+                mm = x if x is y else self.merge(ex, st, cond, x, y)
+                if mm is NotImplemented:
+                    return NotImplemented
+                out.append(mm)
+            return T(out)
+        if a.kind == 'sdict' and b.kind == 'sdict' and list(a.f['items']) == list(b.f['items']) and all(a.f['items'][k] is b.f['items'][k] for k in a.f['items']):
+            return a
+        if a.kind == 'none' and b.kind == 'none':
+            return a
+        if a.kind == 'ktable' and b.kind == 'ktable':
+            cols = sorted(set(a.f['act']) | set(b.f['act']))
+            e0, no = EmptySet(KeyV), BoolVal(False)
+            return ktable(If(cond, a.f['keys'], b.f['keys']), {c: If(cond, a.f['act'].get(c, e0), b.f['act'].get(c, e0)) for c in cols},
+                          sorted_by=a.f.get('sorted_by') if a.f.get('sorted_by') is b.f.get('sorted_by') else None,
+                          has={c: If(cond, a.f['has'].get(c, no), b.f['has'].get(c, no)) for c in cols})
+        return NotImplemented
+
+
+def join_obligations(ctx, m):
+    """perdictable.join(inputs, on, defaults) with _join_dictable_with_defaults and reducer inlined from the source, over table inputs given as uninterpreted key
+    sets K_i and scalar inputs; one symbolic run per configuration (how many table inputs without / with a default, a scalar input or not).
+    Postcondition from the statement: a row for exactly the keys present in every table input without a default (when there is none: the keys of some defaulted
+    input); every input's column is there; in a defaulted input's column a row holds the input's own value exactly when the input has that key, the default
+    otherwise; scalars are broadcast; the result is sorted by `on`."""
+    mr = ctx.mod('_reducer')
+    fjoin = m.func('join')
+    fjd = m.func('_join_dictable_with_defaults')
+    inline = {'join': (m, fjoin), '_join_dictable_with_defaults': (m, fjd), 'reducer': (mr, mr.func('reducer'))}
+    configs = [(nd, df, sc) for nd in (0, 1, 2) for df in (0, 1, 2) for sc in (0, 1) if nd + df >= 1 and (sc == 0 or (nd, df) in ((1, 1), (2, 0), (0, 2)))]
+    for nd, df, sc in configs:
+        label = 'join.%dplain_%ddefaulted%s' % (nd, df, '_1scalar' if sc else '')
+        names_nd = ['p%d' % i_ for i_ in range(nd)]
+        names_df = ['q%d' % i_ for i_ in range(df)]
+        K = {nm: Array('K_' + nm, KeyV, BoolSort()) for nm in names_nd + names_df}
+        inputs = {}
+        # the defaulted inputs first and last: the order of the inputs must not matter
+        order = names_df[:1] + names_nd + names_df[1:]
+        for nm in order:
+            inputs[nm] = ktable(K[nm], {'data': K[nm]})
+        if sc:
+            inputs['s'] = V(Const('SCALAR', Val))
+        defaults = {nm: V(Const('DEFAULT_' + nm, Val)) for nm in names_df}
+        defaults['not_an_input'] = V(Const('DEFAULT_other', Val))
+        on = SV('onspec')
+        th = KeySets()
+        ex = Exec(m, [th, TypePreds()], inline=inline, name=label)
+        st = State()
+        outs = ex.run_function(st, 'join', [sdict(inputs)], {'on': on, 'renames': NONE, 'defaults': sdict(defaults)})
+        ctx.absorb(ex)
+        ctx.record_function(m, 'join', fjoin, ex.stmts_executed, excluded=['no table input at all (dictable(non_dictables)); _item (column selection / renaming) by assumed contract'])
+        ctx.record_function(m, '_join_dictable_with_defaults', fjd, ex.stmts_executed)
+        ctx.record_function(mr, 'reducer', inline['reducer'][1], ex.stmts_executed)
+        want = None
+        for nm in names_nd:
+            want = K[nm] if want is None else SetIntersect(want, K[nm])
+        if want is None:
+            for nm in names_df:
+                want = K[nm] if want is None else SetUnion(want, K[nm])
+        nret = 0
+        for out in outs:
+            hy = ex.facts + out.st.pc
+            if out.kind != 'return':
+                ctx.post(label + '.never_raises.%s' % out.val, hy, BoolVal(False), kind='safety')
+                continue
+            nret += 1
+            r = out.val
+            if r.kind != 'ktable':
+                ctx.post(label + '.returns_a_table', hy, BoolVal(False))
+                continue
+            ctx.post(label + '.a_row_for_exactly_the_keys_of_every_input_without_default', hy, r.f['keys'] == want)
+            ctx.post(label + '.every_input_has_its_column', hy, And(BoolVal(set(r.f['act']) <= set(inputs)), *[r.f['has'].get(nm, BoolVal(False)) for nm in inputs]))
+            for nm in inputs:
+                if nm not in r.f['act']:
+                    continue
+                if nm in names_df:
+                    ctx.post(label + '.defaulted_input_%s.own_value_where_it_has_the_key_default_elsewhere' % nm, hy, r.f['act'][nm] == SetIntersect(want, K[nm]))
+                else:
+                    ctx.post(label + '.input_%s.own_value_in_every_row' % nm, hy, r.f['act'][nm] == want)
+            ctx.post(label + '.sorted_by_on', hy, BoolVal(r.f.get('sorted_by') is on))
+        if nret == 0:
+            raise OutOfSubset('%s: no returning path' % label)
+    k1, k2 = Const('k1!cv', KeyV), Const('k2!cv', KeyV)
+    A, Bq = Array('K_p0', KeyV, BoolSort()), Array('K_q0', KeyV, BoolSort())
+    ctx.cover('join.key_sets_overlap_partly', [A[k1], Not(Bq[k1]), A[k2], Bq[k2], k1 != k2])
+
+
+def value_output_defaults_obligations(ctx, m):
+    """perdictable._value_output up to its call of join: the previously computed column and the expiry are registered with a default (None), i.e. they are
+    outer-joined - a key without previous value / without expiry is kept (and computed), not dropped."""
+    fdef = m.func('perdictable._value_output')
+    body = [s for s in fdef.body if not (isinstance(s, ast.Expr) and isinstance(s.value, ast.Constant))]
+    calls = [k_ for k_, s in enumerate(body) if isinstance(s, ast.Assign) and isinstance(s.value, ast.Call) and ast.unparse(s.value.func) == 'join']
+    if len(calls) != 1:
+        raise SelectorError('_value_output: expected one `ds = join(inputs, on = ..., renames = ..., defaults = ...)`')
+    th = KeySets()
+
+    class Self:
+        def attr(self, ex, st, e, recv, name):
+            if recv.kind == 'obj' and name in ('on',):
+                return SV('onspec')
+            if recv.kind == 'obj' and name == 'col':
+                return S('data')
+            if recv.kind == 'obj' and name == 'defaults':
+                return st.ghost['self.defaults']
+            if recv.kind == 'obj' and name in ('renames', 'function'):
+                return NONE
+            return NotImplemented
+    for given in (False, True):
+        label = '_value_output.defaults_%s' % ('given' if given else 'from_the_signature')
+        ex = Exec(m, [Self(), th, TypePreds()], name=label)
+        st = State(env={'self': SV('obj', None, cls='perdictable'), 'expiry': V(Const('EXPIRY', Val)), 'inputs': sdict({'a': V(Const('A', Val))})})
+        st.ghost['self.defaults'] = sdict({'a': V(Const('DA', Val))}) if given else NONE
+        th.joins = []
+        outs = ex.run_block(st, body[:calls[0] + 1])
+        ctx.absorb(ex)
+        ok = [o for o in outs if o.kind == 'next']
+        for o in outs:
+            if o.kind != 'next':
+                ctx.post(label + '.never_raises.%s' % o.val, ex.facts + o.st.pc, BoolVal(False), kind='safety')
+        if len(ok) != 1 or len(th.joins) != 1:
+            raise OutOfSubset('_value_output: the statements up to join have %d normal exits / %d join calls' % (len(ok), len(th.joins)))
+        inputs, kw = th.joins[0]
+        dflt = kw['defaults']
+        ctx.post(label + '.expiry_is_an_input_of_the_join', [], BoolVal(inputs.kind == 'sdict' and 'expiry' in inputs.f['items']), kind='post')
+        ctx.post(label + '.expiry_is_outer_joined_with_default_None', [], BoolVal(dflt.kind == 'sdict' and 'expiry' in dflt.f['items'] and dflt.f['items']['expiry'].kind == 'none'), kind='post')
+        ctx.post(label + '.previous_value_is_outer_joined_with_default_None', [], BoolVal(dflt.kind == 'sdict' and 'data' in dflt.f['items']), kind='post')
+    ctx.record_function(m, 'perdictable._value_output', fdef, ex.stmts_executed)
+
+
 def build(ctx):
     m = ctx.mod('_perdictable')
+    ctx.guarded('join', lambda: join_obligations(ctx, m))
+    ctx.guarded('_value_output.defaults', lambda: value_output_defaults_obligations(ctx, m))
     fdef = m.func('perdictable._value_output')
     n = Int('N')
     today = DT(Int('TODAY_o'), Int('TODAY_us'))
